@@ -131,10 +131,23 @@ static void op_cap(int nt, char **t) {
     printf("cap %s %lld", cap_tab[k].name, cap_tab[k].fn(sh, (uint16_t) tok_ll(t[3]), (uint16_t) tok_ll(t[4]), (uint16_t) tok_ll(t[5])));
 }
 
+/* randmac <0|1 prefix> <prefixhex>: guarded 6-byte heap block */
+static void op_randmac(int nt, char **t) {
+    (void) nt;
+    int usep = (int) tok_ll(t[1]);
+    size_t n; unsigned char *p = hexbuf(t[2], &n);
+    unsigned char *buf = __real_malloc(6); memset(buf, 0xEE, 6);
+    rnd_pattern = 0xC0;
+    LIB(libwifi_random_mac(buf, usep ? p : NULL));
+    printf("randmac "); out_hex(buf, 6);
+    __real_free(buf); __real_free(p);
+}
+
 const struct op ops_misc[] = {
     {"epoch", op_epoch},
     {"epoch2", op_epoch2},
     {"epoch_frames", op_epoch_frames},
+    {"randmac", op_randmac},
     {"cap", op_cap},
     {"crc", op_crc},
     {"verify", op_verify},
